@@ -46,9 +46,10 @@ type depInfo struct {
 	pos       int
 	mined     bool
 	credited  bool
-	offeredAt int64  // height of the block whose large batch offered it
-	plain     bool   // an ordinary deposit to the key registered when it was made (candidates of large batches)
-	keyID     string // overrides the interned id of key (a malformed key whose first bytes equal a registered key's)
+	offeredAt int64    // height of the block whose large batch offered it
+	sib       *depInfo // another deposit output of the same transaction
+	plain     bool     // an ordinary deposit to the key registered when it was made (candidates of large batches)
+	keyID     string   // overrides the interned id of key (a malformed key whose first bytes equal a registered key's)
 }
 
 type wdTx struct {
@@ -238,8 +239,29 @@ func (g *bridgeGen) newDepositTx(flaw string) *depInfo {
 		outs = append([]btc.Out{{Value: 777, Script: []byte{txscript.OP_TRUE}}}, outs...)
 		d.outIdx = 1
 	}
+	var sib *depInfo
+	if version == 0 && flaw == "none" && g.r.Intn(4) == 0 {
+		// one transaction, TWO deposits: a second output pays the address handed out for another user (each output is credited on its
+		// own, each needs its own valid inclusion proof - also after the other one was credited)
+		evm2 := g.evms[g.r.Intn(len(g.evms))]
+		if resp2, err := qs.DepositAddress(c.ReadCtx(), &bitcointypes.QueryDepositAddress{Version: 0, EvmAddress: "0x" + hex.EncodeToString(evm2)}); err == nil {
+			if addr2, err := btcutil.DecodeAddress(resp2.Address, g.net); err == nil {
+				if script2, err := txscript.PayToAddrScript(addr2); err == nil {
+					v2 := int64(11000 + g.r.Intn(50000))
+					outs = append(outs, btc.Out{Value: v2, Script: script2})
+					sib = &depInfo{version: 0, key: key, evm: evm2, value: v2, outIdx: len(outs) - 1, plain: true,
+						gen: Ev{"key": project.KeyID(key.Pub), "evm": hex.EncodeToString(evm2), "version": 0, "magicOk": true}}
+				}
+			}
+		}
+	}
 	d.nOuts = len(outs)
 	d.raw, d.txid = btc.Tx(g.r, outs, 0)
+	if sib != nil {
+		sib.nOuts, sib.raw, sib.txid = d.nOuts, d.raw, d.txid
+		d.sib = sib
+		g.deps = append(g.deps, sib)
+	}
 	return d
 }
 
@@ -340,13 +362,22 @@ func (g *bridgeGen) depositItem(d *depInfo, flaw string) (*bitcointypes.Deposit,
 		f["outIdx"] = d.nOuts
 	case "otherOut":
 		if d.nOuts > 1 {
-			dep.OutputIndex = uint32(1 - d.outIdx)
-			f["outIdx"] = 1 - d.outIdx
+			other := 1 - d.outIdx
+			if other < 0 {
+				other = 0
+			}
+			dep.OutputIndex = uint32(other)
+			f["outIdx"] = other
 			f["value"] = int64(0)
 			if d.version == 0 {
 				f["value"] = int64(777)
 			}
 			f["gen"] = Ev{"key": "", "evm": "", "version": -1, "magicOk": false}
+			for _, x := range g.deps { // the other output may itself be a deposit (of the same transaction, for another user)
+				if x != d && x.outIdx == other && bytes.Equal(x.txid, d.txid) {
+					f["value"], f["gen"] = x.value, x.gen
+				}
+			}
 		}
 	case "pos":
 		p2 := (d.pos + 1 + g.r.Intn(3))
@@ -646,6 +677,11 @@ func (g *bridgeGen) plan(mode string) (*BlockPlan, error) {
 	plan := &BlockPlan{DT: 1, Proposer: 0}
 	rare := func(k int) bool { return r.Intn(k) == 0 }
 	g.idsFrom = g.wdNext
+	for _, d := range g.deps {
+		if d.sib != nil && d.mined && !d.sib.mined {
+			d.sib.blk, d.sib.pos, d.sib.mined = d.blk, d.pos, true
+		}
+	}
 
 	// the bitcoin network moves on
 	if rare(2) || g.mined < uint64(st.Tip)+2 {
